@@ -322,7 +322,8 @@ def check_twin(ld, prog, seed, rngkind, res):
         if pf == 'p2t' and stage in ('reshuffle', 'apply_reshuffle') and n >= 2 \
                 and not sig['shared_random_stage']:
             try:
-                pds = build(ld, prog, seed, rngkind).prefetch(2, 2, 't')
+                pds = build(ld, prog, seed, rngkind).prefetch(
+                    2, 2, 't', catch_filter_exception=(True if seed % 2 else None))
                 np.random.seed(71)
                 it1 = iter(pds)
                 first = [next(it1)]
